@@ -211,7 +211,12 @@ def main():
         "engines": [{"name": "pbt", "path": "pbt/runner.py", "serves_properties": sorted(CHECKS),
                      "kind_free_text": "Hypothesis 6.168 strategies and rule-based machines, exhaustive sweeps of the "
                                        "embedded tables with independent readers, fork-per-history exploration of loader "
-                                       "states; one process per task, 16 cores"}],
+                                       "states; one process per task, 16 cores"},
+                    {"name": "fuzz", "path": "pbt/fuzz.py",
+                     "serves_properties": ["C01", "C02", "C11", "C13", "C18", "C19"],
+                     "kind_free_text": "atheris 3.1 / libFuzzer coverage-guided campaigns (thorough tier) that drive the "
+                                       "Hypothesis strategies and oracles of existing tasks through fuzz_one_input; "
+                                       "findings are replayed without the fuzzer before they are reported"}],
         "checks": checks,
         "not_applicable": na,
         "notes": "Run ./check <ID> [--tier quick|thorough]; VERIF_SEED selects the seed. known_findings.json lists recorded "
